@@ -28,6 +28,9 @@ Init == tid \in 1..Len(Recs) /\ st = "called"
 
 LL == /\ st = "called" /\ R.kind = "ll"
       /\ Clause("C05", "log_likelihood_is_finite_even_when_det_leaves_double_range", R.finite)
+      \* (C03: a positive definite MRF has a finite log-determinant, HENCE every likelihood value is finite - for every
+      \*  size and scale together, e.g. NW = 60 with variances 1e12, where det and sqrt(det) leave the double range)
+      /\ Clause("C03", "likelihood_finite_for_every_positive_definite_mrf_whatever_its_determinant", R.finite)
       /\ Clause("C05", "log_likelihood_is_exact_gaussian_log_density",
                 R.finite /\ LWithin(LScale(R.llL, 2), TwiceLLQ(R.d, R.b1, R.b2, R.e),
                                     Len(R.d) + SumInts([i \in 1..Len(R.e) |-> IF R.e[i] < 0 THEN -R.e[i] ELSE R.e[i]]) + 8))
